@@ -15,5 +15,8 @@ CONSTANTS
   GCachePrefilled = TRUE
   FillGlobalCachesUnderLock = FALSE
   SharedScratch = FALSE
+  StaleLocals = FALSE
+  Orphans = {}
+  LockViaParent = FALSE
 PROPERTIES Terminates
 CHECK_DEADLOCK FALSE
